@@ -149,6 +149,16 @@ def run(c):
          bypass=[], desc="Segment::root: identifier.height >= 64 is refused before any position arithmetic or unwrap")
     c.r2("segment-root-nonempty", SR, ops={"Eq"}, lhs=["call:Segment::segment_unpruned_size"], rhs=["const:0"], err="NonExistent", sink="re:core::option::Option::unwrap$",
          bypass=[(r"^Ge\(arg0\.identifier\.height, 64\)$", "true")], desc="Segment::root: an identifier whose leaf offset lies beyond the MMR is refused before any unwrap")
+    # constant / clamped lengths behind the hand justifications of the fixed-size copies
+    c.r2_arg("rangeproof-len", "<secp256k1zkp::pedersen::RangeProof as grin_core::ser::Readable>::read", "grin_core::ser::Reader::read_fixed_bytes", 1,
+             must=["call:cmp::min", "call:Reader::read_u64", "re:^item:.*MAX_PROOF_SIZE"], desc="RangeProof::read clamps the wire length to MAX_PROOF_SIZE before copying into the fixed array")
+    c.r2_arg("hash-len", "<grin_core::core::hash::Hash as grin_core::ser::Readable>::read", "grin_core::ser::Reader::read_fixed_bytes", 1, must=["re:^item:.*LEN="] , text=r"^const:|^\d+$") if False else \
+        c.r2_arg("hash-len", "<grin_core::core::hash::Hash as grin_core::ser::Readable>::read", "grin_core::ser::Reader::read_fixed_bytes", 1, text=r"^(const:\S+=32|32)$",
+                 desc="Hash::read reads exactly 32 bytes before copy_from_slice into [u8; 32]")
+    c.r2_arg("commitment-len", "<secp256k1zkp::pedersen::Commitment as grin_core::ser::Readable>::read", "grin_core::ser::Reader::read_fixed_bytes", 1, text=r"^(const:\S*PEDERSEN_COMMITMENT_SIZE=33|33)$")
+    c.r2_arg("signature-len", "<secp256k1zkp::Signature as grin_core::ser::Readable>::read", "grin_core::ser::Reader::read_fixed_bytes", 1, text=r"^(const:\S*AGG_SIGNATURE_SIZE=64|64)$")
+    c.r2_arg("peer-addr-v4-len", "<grin_p2p::types::PeerAddr as grin_core::ser::Readable>::read", "grin_core::ser::Reader::read_fixed_bytes", 1, text=r"^4$")
+    c.r2_arg("body-alloc-len", "grin_p2p::msg::read_body", "re:alloc::vec::from_elem$", 1, must=["arg0.msg_len"])
     c.r2("segment-item-count", "grin_core::core::pmmr::segment::read_segment_item_count", ops={"Gt"}, lhs=["call:Reader::read_u64"], rhs=["re:^item:.*MAX_SEGMENT_READ_ITEMS="],
          err="TooLargeReadErr")
     # --- limit before body
